@@ -25,7 +25,7 @@ def explore(facts, f, T, is_class, base_rows=None, max_rows=600, ctor=None):
     """run f under every combination of the order relations it turns out to branch on (row discovery); returns
     [(rows, domain, [Path])]"""
     results = []
-    lin_of = {}
+    lin_of = {}; ord_of = {}
     pending = [dict(base_rows or {})]
     seen = set()
     while pending:
@@ -36,6 +36,7 @@ def explore(facts, f, T, is_class, base_rows=None, max_rows=600, ctor=None):
         if len(seen) > max_rows: raise Inconclusive(f'more than {max_rows} order-relation rows for {f.name}', f.shortloc())
         dom = ContDomain(T, is_class, rows=rows)
         dom.ctor = bool(f.d.get('ctor')) if ctor is None else ctor
+        dom.ord_vals = ord_of          # shared over the runs: an atom decided by the row is not consulted again
         ex = Exec(facts, dom)
         paths = ex.run(f)
         unk = [(k, d) for k, n, d in dom.unknown_cmp]
@@ -372,6 +373,19 @@ class RCtx:
         # exact zero through equalities is handled by norm(); otherwise unknown
         return None
 
+    def contradictory(self):
+        """the row's own facts refute each other (linear reasoning over integers; sound: only proven contradictions)"""
+        if not hasattr(self, '_contra'):
+            self._contra = False
+            fs = self.facts_nonneg()
+            for i, (d, strict) in enumerate(fs):
+                # d >= 0 is claimed; is d < 0 provable from the other facts?
+                self._facts = fs[:i] + fs[i + 1:]
+                s_ = self.sign(d)
+                self._facts = fs
+                if s_ == -1: self._contra = True; break
+        return self._contra
+
     def models(self, extra=('p:newCapacity',), bound=5):
         """valuations of the entry symbols (small buffers) that satisfy the object invariants and every atom of this row"""
         import itertools as it
@@ -379,7 +393,7 @@ class RCtx:
         for k, v in self.rows.items():
             if isinstance(k, tuple) and k[0] == 'sign' and self.dom.lin_of.get(k[1]) is not None: syms |= set(self.dom.lin_of[k[1]].t)
         free = [s_ for s_ in sorted(syms | set(extra)) if s_ not in ('P', 'S', 'C')]
-        if len(free) > 2: return
+        if len(free) > 2: raise LookupError('too many free symbols')
         for Cv in range(1, bound + 1):
             for Sv in range(0, Cv + 1):
                 for Pv in range(0, Cv):
@@ -398,17 +412,20 @@ class RCtx:
                                     a, b = concrete(lr[0], env), concrete(lr[1], env)
                                     x = None if a is None or b is None else a - b
                             else: continue
-                            if x is None: return          # an atom over something else: no models claimed
+                            if x is None: raise LookupError(str(k))          # an atom over something else: no models claimed
                             if {'<': x < 0, '=': x == 0, '>': x > 0}[v] is False: ok = False; break
                         if ok: yield env
 
     def model_check(self, pred, **kw):
         """('refuted', witness state) | ('holds', number of small states consistent with this row, all satisfying pred) | ('unknown', 0)"""
         n = 0
-        for env in self.models(**kw):
-            n += 1
-            if not pred(env): return 'refuted', env
-        return ('holds', n) if n else ('unknown', 0)
+        try:
+            for env in self.models(**kw):
+                n += 1
+                if not pred(env): return 'refuted', env
+        except LookupError:
+            return 'unknown', 0
+        return ('holds', n) if n else ('infeasible', 0)
 
     def inner(self, v):
         """linear form congruent to an index value (ModVal / ModPlus / Lin)"""
@@ -463,6 +480,7 @@ def ring_analyse(facts, rep):
         for f in fns:
             base = strip_targs(f.qname.split('::')[-1]) if not f.qname.split('::')[-1].startswith('operator') else f.qname.split('::')[-1]
             if base in ('alloc', 'realloc', 'free', 'modCap', 'dataIndex', 'overwriteCheck', 'notEmptyCheck', 'empty', 'full', 'size', 'capacity', 'cbegin', 'cend', 'push_back', 'push_front'): continue
+            if f.d.get('access') in ('private', 'protected'): continue       # helpers are evaluated inlined into the public operations (with their call-site state)
             label = f'{short}::{f.name.split("::")[-1][:46]}'
             site = f.shortloc()
             nfn += 1
@@ -494,6 +512,7 @@ def ring_analyse(facts, rep):
                 for P in paths:
                     if P.end in ('throw', 'noreturn'): continue
                     ctx = RCtx(rows, dom, P, f, is_class, ow)
+                    if ctx.contradictory(): continue          # no buffer state satisfies this combination of branch outcomes
                     rt = ctx.rowtxt()
                     # ---- generic: RB.6 / RB.9 on every path -------------------------------------------------------------------
                     for n, p in ctx.ev:
@@ -796,6 +815,7 @@ def op_resize(ctx, add, label, rt, site):
         why = ''
         if not proved:
             verdict, w = ctx.model_check(safe_at)
+            if verdict == 'infeasible': return      # no buffer state satisfies this combination of branch outcomes
             if verdict == 'holds':
                 safe = True      # piecewise-linear guard over residues: decided on every buffer state with capacity <= 5 consistent with the row
             elif verdict == 'refuted':
@@ -839,6 +859,26 @@ def op_resize(ctx, add, label, rt, site):
     else:
         rg = [(n, p) for n, p in ctx.ev if p[0] == 'range' and p[1] == 'construct']
         if len(rg) == 1 and rg[0][1][2][0] == 'raw' and rg[0][1][3] == Lin.const(0) and ctx.eq(rg[0][1][4], k): okc = True
+    if not okc and mc and all(isinstance(p[3], Bytes) and isinstance(p[1], Ptr) and isinstance(p[2], Ptr) for n, p in mc):
+        # any other split into memcpy runs: evaluate the runs on every small buffer state consistent with the row
+        newblk = al[0][1][2].base
+        def copies_ok(env):
+            kk = min(env['S'], env['p:newCapacity']); dst = {}
+            for n_, p_ in mc:
+                c_ = concrete(p_[3].n, env); d0 = concrete(p_[1].off, env); s0 = concrete(p_[2].off, env)
+                if c_ is None or d0 is None or s0 is None: raise LookupError('memcpy operand')
+                if c_ < 0: return False
+                if c_ == 0: continue
+                if p_[1].base != newblk or p_[2].base != 'data0': return False
+                if s0 < 0 or s0 + c_ > env['C'] or d0 < 0 or d0 + c_ > env['p:newCapacity']: return False
+                for j in range(c_): dst[d0 + j] = s0 + j
+            return all(dst.get(j) == (env['P'] + j) % env['C'] for j in range(kk))
+        try: verdict, w = ctx.model_check(copies_ok)
+        except LookupError: verdict, w = 'unknown', None
+        if verdict == 'infeasible': return
+        if verdict == 'holds': okc = True
+        elif verdict == 'refuted': why += f' — e.g. head {w["P"]}, size {w["S"]}, capacity {w["C"]}, new capacity {w["p:newCapacity"]}: the new block does not hold logical [0, {min(w["S"], w["p:newCapacity"])}) in order'
+        else: okc = None; why = 'the memcpy runs could not be evaluated: ' + why
     add('RB.4', okc, f'{label} {rt}: the first {k} logical elements are copied in order', mc[0][0].shortloc() if mc else site, '' if okc else why, key='RB.4|copy-order')
     ownership(ctx, add, label, rt, site, 'resize')
     if ctx.is_class:
